@@ -2,6 +2,7 @@ package interpreter
 
 import (
 	"fmt"
+	"strconv"
 	"strings"
 
 	"github.com/truora/minidyn/types"
@@ -43,7 +44,7 @@ func (ni *Native) Match(input MatchInput) (bool, error) {
 
 // Update change the item with given expression and attributes
 func (ni *Native) Update(input UpdateInput) error {
-	updater, found := ni.updateExpressions[input.TableName+"|"+hashExpressionKey(input.Expression)]
+	updater, found := ni.updateExpressions[registrationKey(input.TableName, input.Expression)]
 	if !found {
 		return fmt.Errorf(
 			"%w: updater not found for %q expression in table %q",
@@ -66,11 +67,11 @@ func (ni *Native) getMatcher(tablename, expression string, kind ExpressionType) 
 
 	switch kind {
 	case ExpressionTypeKey:
-		matcher, found = ni.keyExpressions[tablename+"|"+hashExpressionKey(expression)]
+		matcher, found = ni.keyExpressions[registrationKey(tablename, expression)]
 	case ExpressionTypeFilter:
-		matcher, found = ni.filterExpressions[tablename+"|"+hashExpressionKey(expression)]
+		matcher, found = ni.filterExpressions[registrationKey(tablename, expression)]
 	case ExpressionTypeConditional:
-		matcher, found = ni.writeCondExpressions[tablename+"|"+hashExpressionKey(expression)]
+		matcher, found = ni.writeCondExpressions[registrationKey(tablename, expression)]
 	}
 
 	if !found {
@@ -92,23 +93,29 @@ func hashExpressionKey(s string) string {
 	return strings.Join(strings.Fields(s), " ")
 }
 
+// registrationKey identifies a registration; the length of the table name keeps
+// (table, expression) pairs apart whatever characters the two strings hold
+func registrationKey(tablename, expression string) string {
+	return strconv.Itoa(len(tablename)) + "|" + tablename + "|" + hashExpressionKey(expression)
+}
+
 // AddUpdater add expression updater to use on key or filter queries
 func (ni *Native) AddUpdater(tablename string, expr string, updater UpdaterFunc) {
-	ni.updateExpressions[tablename+"|"+hashExpressionKey(expr)] = updater
+	ni.updateExpressions[registrationKey(tablename, expr)] = updater
 }
 
 // AddMatcher add expression matcher to use on key or filter queries
 func (ni *Native) AddMatcher(tablename string, t ExpressionType, expr string, matcher MatcherFunc) {
 	// TODO validate the expresion(expr)
-	key := hashExpressionKey(expr)
+	key := registrationKey(tablename, expr)
 
 	switch t {
 	case ExpressionTypeKey:
-		ni.keyExpressions[tablename+"|"+key] = matcher
+		ni.keyExpressions[key] = matcher
 	case ExpressionTypeFilter:
-		ni.filterExpressions[tablename+"|"+key] = matcher
+		ni.filterExpressions[key] = matcher
 	case ExpressionTypeConditional:
-		ni.writeCondExpressions[tablename+"|"+key] = matcher
+		ni.writeCondExpressions[key] = matcher
 	default:
 		panic("NativeInterpreter: unsupported expression type")
 	}
